@@ -159,8 +159,8 @@ def harmonic_set(a: PointTensor, b: PointTensor, c: PointTensor) -> PointTensor:
 
         l = join(a, b)
 
-    m = join(o, c)
-    p = o + 1 / 2 * m.direction
+    # any third point of the line oc: the sum of the homogeneous coordinates is never a multiple of o or c
+    p = PointCollection.from_array(o.array + c.array)
     result = l.meet(join(meet(o.join(a), p.join(b)), meet(o.join(b), p.join(a))))
 
     if n > 3:
